@@ -33,7 +33,7 @@ ASSUMPTIONS = [
     "reference = brute-force avoider sets on plain tuples (ref/classes.py)",
     "order within a level is not part of the property and is not checked",
 ]
-EXPECTED_PROBES = ["iter_resumed_after_deeper_build", "iter_resumed_after_clear_cache", "iter_resumed_after_recreate",
+EXPECTED_PROBES = ["guided_interrupt", "iter_resumed_after_deeper_build", "iter_resumed_after_clear_cache", "iter_resumed_after_recreate",
                    "below_compacted_depth", "jump_ahead_3", "mesh_basis", "two_classes_interleaved",
                    "basis_elem_of_new_length", "empty_level_reached", "long_membership_on_fresh_object",
                    "is_subclass", "first_iter", "interrupted_call", "class_object_address_reused"]
